@@ -73,15 +73,15 @@ theorem build_runs_each_singleton_ctor_exactly_once (beh : Beh) (hnil : NoNilOut
     (∀ c, SingCtor descs c → ctorCount st.log c ≤ 1) ∧
     (∀ d ∈ descs, d.life = .singleton → (∀ v, d.kind ≠ .inst v) → d.id ∈ order → ctorCount st.log d.ctor = 1) := by
   unfold buildRuntime at h
-  have hn : newScope beh { descs := descs } none 0 false = (allocScope { descs := descs } none 0, .ok 0) := by
+  have hn : newScope beh { descs := descs, next := firstFresh descs } none 0 false = (allocScope { descs := descs, next := firstFresh descs } none 0, .ok 0) := by
     unfold newScope; simp
   simp only [hn] at h
-  have inv0 : BuildInv descs (allocScope { descs := descs } none 0) :=
+  have inv0 : BuildInv descs (allocScope { descs := descs, next := firstFresh descs } none 0) :=
     ⟨rfl, by intro c _; simp [allocScope], by intro c _ h; simp [allocScope] at h,
      by intro d _ _ _ h; simp [allocScope, lookup] at h⟩
   have inv := createSingletons_inv beh hnil descs wf rw' order _ inv0
   have hstored := createSingletons_ok_stored beh hnil descs wf rw' order _ inv0
-  generalize createSingletons beh (allocScope { descs := descs } none 0) order = r at h inv hstored
+  generalize createSingletons beh (allocScope { descs := descs, next := firstFresh descs } none 0) order = r at h inv hstored
   obtain ⟨st2, res⟩ := r
   cases res with
   | error e => simp at h
@@ -131,7 +131,7 @@ def exDescs : List Desc :=
 example : (lookup (buildRuntime {} exDescs [0, 1]).1.singletons ⟨3, 0, 0⟩) = some (.inst 1) := by decide
 /-- the structural hypotheses are satisfiable: the example registry meets `WF` and `RegWF` -/
 example : WF exDescs ∧ RegWF exDescs := by
-  refine ⟨⟨?_, ?_⟩, ⟨?_, ?_, ?_, ?_, ?_⟩⟩ <;> simp [SibLife, exDescs, findDesc] <;> decide
+  refine ⟨⟨?_, ?_⟩, ⟨?_, ?_, ?_, ?_, ?_, ?_⟩⟩ <;> simp [SibLife, exDescs, findDesc] <;> decide
 example : okIs (scopeGet {} (buildRuntime {} exDescs [0, 1]).1 0 4 0).2 (.inst 2) = true := by decide
 
 end Godi.Props.C01
